@@ -281,6 +281,19 @@ func c20Prepare(r *fw.Rand, p *ref.Packet) (*rtp.Packet, error) {
 	if r.Chance(1, 4) {
 		pk.PayloadOffset = r.Pick(-1, 1, 12, 65536, r.Intn(4096)) // deprecated, exported, a header field like any other
 	}
+	if ids := pk.GetExtensionIDs(); len(ids) >= 2 && r.Chance(1, 8) {
+		// several values set from ONE buffer: they start at the same address and have their own lengths
+		maxLen := 0
+		for _, id := range ids {
+			if n := len(pk.GetExtension(id)); n > maxLen {
+				maxLen = n
+			}
+		}
+		store := r.Bytes(maxLen + 4)
+		for _, id := range ids {
+			_ = pk.SetExtension(id, store[:len(pk.GetExtension(id))])
+		}
+	}
 	if r.Chance(1, 3) {
 		// extension values whose backing arrays have spare capacity
 		for _, id := range pk.GetExtensionIDs() {
